@@ -38,7 +38,8 @@ func fontCases(n int) []*FontCase {
 	var res []*FontCase
 	corpus := fonts.Corpus(true)
 	upms := []int{1000, 1000, 2048, 1000, 64, 16384, 1000, 2000}
-	wmodes := []string{"rand", "rand", "mono", "monozero", "tail", "rand", "wide", "zero", "tail", "nearmono"}
+	wmodes := []string{"rand", "rand", "mono", "monozero", "tail", "rand", "wide", "zero", "tail", "nearmono",
+		"drift", "driftperm", "jitter"}
 	shifts := [][2]int{{0, 0}, {0, 0}, {900, 1100}, {-2500, -1900}, {0, 1500}, {1300, 0}}
 	angles := [][2]int{{0, 0}, {0, 0}, {65524, 0}, {65523, 32768}, {9, 1}}
 	for i := 0; len(res) < n; i++ {
@@ -78,8 +79,8 @@ func fontCases(n int) []*FontCase {
 	return res
 }
 
-// build constructs the font of a case; w2 = the advance widths in half units as the harness chose them.
-func (fc *FontCase) build() (f *sfnt.Font, w2 []int, codes []int) {
+// build constructs the font of a case; wq = the advance widths in units of 1/20 as the harness chose them.
+func (fc *FontCase) build() (f *sfnt.Font, wq []int, codes []int) {
 	rng := rand.New(rand.NewSource(fc.RSeed))
 	f = fonts.Make(rng, fc.Opts)
 	n := f.NumGlyphs()
@@ -133,7 +134,7 @@ func (fc *FontCase) build() (f *sfnt.Font, w2 []int, codes []int) {
 	}
 
 	// advance widths
-	w2 = make([]int, n)
+	wq = make([]int, n)
 	get := func(i int) float64 {
 		switch o := f.Outlines.(type) {
 		case *cff.Outlines:
@@ -168,6 +169,12 @@ func (fc *FontCase) build() (f *sfnt.Font, w2 []int, codes []int) {
 			}
 		case "zero":
 			set(i, 0)
+		case "drift": // creeping in steps below half a unit, spanning a unit or more overall
+			set(i, 600+0.4*float64(i%8))
+		case "driftperm": // the same multiset of widths in another glyph order
+			set(i, 600+0.4*float64((i*5+3)%8))
+		case "jitter": // all within half a unit: either answer of the fixed-pitch test is accepted
+			set(i, 600+0.05*float64(rng.Intn(9)))
 		case "nearmono":
 			set(i, float64(600+rng.Intn(2)*(1+rng.Intn(40))))
 		case "wide":
@@ -175,7 +182,7 @@ func (fc *FontCase) build() (f *sfnt.Font, w2 []int, codes []int) {
 				set(i, float64(1000+rng.Intn(3000)))
 			}
 		}
-		w2[i] = int(math.Round(2 * get(i)))
+		wq[i] = int(math.Round(20 * get(i)))
 	}
 
 	// the codes the builder maps (fonts.Make, Cmap option)
@@ -197,7 +204,7 @@ func (fc *FontCase) build() (f *sfnt.Font, w2 []int, codes []int) {
 			codes = append(codes, int(c))
 		}
 	}
-	return f, w2, codes
+	return f, wq, codes
 }
 
 func sign(x float64) int {
@@ -265,16 +272,16 @@ func milli(r [4]float64) [4]int {
 }
 
 // describe records the queries of f, writes it, and walks the file.
-func describe(c *Case, stage string, f *sfnt.Font, w2, codes []int) (e ev, file []byte) {
+func describe(c *Case, stage string, f *sfnt.Font, wq, codes []int) (e ev, file []byte) {
 	n := f.NumGlyphs()
 	fk := c.Font.Opts.Kind
-	e = ev{"ev": "font", "case": c.ID, "stage": stage, "fkind": fk, "n": n, "upm": c.Font.Upm, "w2": w2, "codes": codes,
+	e = ev{"ev": "font", "case": c.ID, "stage": stage, "fkind": fk, "n": n, "upm": c.Font.Upm, "wq": wq, "codes": codes,
 		"matrix": c.Font.Matrix, "wmode": c.Font.WMode}
 	wlo := make([]int, n)
 	whi := make([]int, n)
-	for i, x := range w2 {
-		wlo[i] = int(math.Floor(float64(x) / 2))
-		whi[i] = int(math.Ceil(float64(x) / 2))
+	for i, x := range wq {
+		wlo[i] = int(math.Floor(float64(x) / 20))
+		whi[i] = int(math.Ceil(float64(x) / 20))
 	}
 	e["wlo"], e["whi"] = wlo, whi
 	e["npts"], e["on"], e["onin"], e["all"] = outlineBoxes(f)
@@ -282,23 +289,23 @@ func describe(c *Case, stage string, f *sfnt.Font, w2, codes []int) (e ev, file 
 	// the font's own queries
 	qbox := make([][4]int, n)
 	qboxpdf := make([][4]int, n)
-	qgw2 := make([]int, n)
+	qgwq := make([]int, n)
 	qgwpdf := make([]int, n)
 	for i := 0; i < n; i++ {
 		gid := glyph.ID(i)
 		qbox[i] = box4(f.GlyphBBox(gid))
 		r := f.Outlines.GlyphBBoxPDF(f.FontMatrix, gid)
 		qboxpdf[i] = milli([4]float64{r.LLx, r.LLy, r.URx, r.URy})
-		qgw2[i] = mx.Clamp(2 * f.GlyphWidth(gid))
+		qgwq[i] = mx.Clamp(20 * f.GlyphWidth(gid))
 		qgwpdf[i] = mx.Clamp(f.GlyphWidthPDF(gid) * 1000)
 	}
 	qboxes := make([][4]int, 0, n)
 	for _, r := range f.GlyphBBoxes() {
 		qboxes = append(qboxes, box4(r))
 	}
-	qw2 := []int{}
+	qwq := []int{}
 	for _, w := range f.Widths() {
-		qw2 = append(qw2, mx.Clamp(2*w))
+		qwq = append(qwq, mx.Clamp(20*w))
 	}
 	qwpdf := []int{}
 	for _, w := range f.WidthsPDF() {
@@ -306,7 +313,7 @@ func describe(c *Case, stage string, f *sfnt.Font, w2, codes []int) (e ev, file 
 	}
 	fb := f.FontBBoxPDF()
 	e["q_box"], e["q_boxes"], e["q_fbox"] = qbox, qboxes, box4(f.FontBBox())
-	e["q_w2"], e["q_gw2"], e["q_wpdf"], e["q_gwpdf"] = qw2, qgw2, qwpdf, qgwpdf
+	e["q_wq"], e["q_gwq"], e["q_wpdf"], e["q_gwpdf"] = qwq, qgwq, qwpdf, qgwpdf
 	e["q_boxpdf"], e["q_fboxpdf"] = qboxpdf, milli([4]float64{fb.LLx, fb.LLy, fb.URx, fb.URy})
 	e["q_fixed"] = f.IsFixedPitch()
 	// WidthsMapPDF (simple CFF fonts only): widths by glyph name, glyph space units
@@ -413,10 +420,10 @@ func doFont(c *Case, out *vio.Out) {
 	var file []byte
 	var codes []int
 	guard(c, out, func() {
-		f, w2, cs := c.Font.build()
+		f, wq, cs := c.Font.build()
 		codes = cs
 		var e ev
-		e, file = describe(c, "built", f, w2, codes)
+		e, file = describe(c, "built", f, wq, codes)
 		out.Emit(e)
 	})
 	if file == nil {
@@ -436,7 +443,7 @@ func doFont(c *Case, out *vio.Out) {
 		}
 		hh, hm := mx.Words(tabs["hhea"]), mx.Words(tabs["hmtx"])
 		n := f1.NumGlyphs()
-		w2 := make([]int, n)
+		wq := make([]int, n)
 		if len(hh) >= 18 {
 			k := hh[17]
 			for i := 0; i < n; i++ {
@@ -445,11 +452,11 @@ func doFont(c *Case, out *vio.Out) {
 					j = k - 1
 				}
 				if j >= 0 && 2*j < len(hm) {
-					w2[i] = 2 * hm[2*j]
+					wq[i] = 20 * hm[2*j]
 				}
 			}
 		}
-		e, _ := describe(c, "reread", f1, w2, codes)
+		e, _ := describe(c, "reread", f1, wq, codes)
 		out.Emit(e)
 	})
 }
